@@ -42,8 +42,8 @@ Lower(s) == IF s \in DOMAIN F.lower THEN F.lower[s] ELSE s
 \*   scheme u.Scheme           norm  u.String()        empty  u.String() = ""
 Url(v) == F.url[v]
 
-\* url.Parse(v) succeeds and has a host (used by link hardening on whatever
-\* value the href has at that point)
+\* link hardening treats the href as external: url.Parse(v) finds a host, or cannot parse v at all
+\* (evaluated on whatever value the href has at that point)
 HasHost(v) == F.host[v]
 
 \* verdict of custom URL policy fid on value v
